@@ -808,3 +808,15 @@ func (v *View) KeysPrefix(_ context.Context, token, prefix, delim string, count 
 	v.emit(Event{Op: "list", Prefix: prefix, Delim: delim, Token: token, Count: count, Keys: page, Next: next})
 	return page, next, nil
 }
+
+// HeldKeys lists the calls currently held ("op key").
+func (c *Ctl) HeldKeys() []string {
+	c.mu.Lock()
+	defer c.mu.Unlock()
+	out := make([]string, 0, len(c.held))
+	for k := range c.held {
+		out = append(out, k)
+	}
+	sort.Strings(out)
+	return out
+}
